@@ -4,7 +4,7 @@
    onnx_ir/_symbolic_shapes.py and the constructor trees the SymbolicDim operators ask SymPy to build; the
    function table and the operator sets come from Gen/C16Gen.v, regenerated from the source on every run. *)
 From Coq Require Import ZArith NArith List Bool QArith Qround.
-From IRV Require Import Base.Exn Gen.C16Gen C16.Model C16.ProofsEval C16.ProofsParser C16.ProofsParser2 C16.ProofsLexer.
+From IRV Require Import Base.Exn Gen.C16Gen C16.Model C16.ProofsEval C16.ProofsParser C16.ProofsParser2 C16.ProofsLexer C16.ProofsStructure.
 Import ListNotations.
 
 (* The operator sets of every precedence level, the shape of the descent (which _parse_* calls which), the
@@ -13,6 +13,13 @@ Import ListNotations.
 Theorem C16_tables_current : tables_ok = true /\ descent_ok = true.
 Proof. exact tables_current. Qed.
 Print Assumptions C16_tables_current.
+
+(* The parser source has the structure the model describes: the same classes, methods, state variables
+   (tokenizer: text/pos/length; parser: tokenizer/text/current_token) and the same number of rejection sites
+   per method.  Fail-closed: a new state variable or `raise` in the parser breaks this obligation. *)
+Theorem C16_parser_structure_current : structure_ok = true.
+Proof. exact structure_current. Qed.
+Print Assumptions C16_parser_structure_current.
 
 (* Every function name the printed forms use (floor, ceiling, Abs, sign, sqrt, Mod, Max, Min) is in
    _ALLOWED_FUNCTIONS with the right meaning, and every entry of the table is a constructor of the model. *)
